@@ -8,10 +8,10 @@ CONSTANTS
   Lens <- AllLens
   Modes = {"static", "auto", "chunk"}
   Chunks = {1, 3, 31}
-  Pools <- PoolsQ
+  Pools <- PoolsSmall
   Waits = {TRUE, FALSE}
-  MinItems = {1, 3, 9}
-  Grans = {1, 2, 3, 5}
+  MinItems = {1, 3}
+  Grans = {1, 2, 3}
   Props = {"c12"}
   L3 = 1
   GSpan = 2
